@@ -132,10 +132,11 @@ package query
 //@   safety
 
 //@ func SerializeKey
-//@   property C14 C19
+//@   property C14 C19 C04
 //@   ownwrites E:parser.QueryExpression# E:parser.Statement#
 //@   safety
 //@   ghostset looseKeys = looseKeys + 1
+//@   assert after call serializeFloat#*: [float-keys-are-normalised] floatKeysNormalized == old(floatKeysNormalized) + 1
 //@   modifies * except F:option.Flags.StrictEqual#
 
 //@ func SetEnvVar
